@@ -2,7 +2,9 @@ package loader
 
 import (
 	"encoding/csv"
+	"errors"
 	"fmt"
+	stdio "io"
 	"os"
 	"strings"
 
@@ -41,9 +43,13 @@ func CSVtoNumpyMulti(csvReader *csv.Reader, tbk io.TimeBucketKey, cvm *CSVMetada
 	var linesRead int
 	for i := 0; i < chunkSize; i++ {
 		row, err2 := csvReader.Read()
-		if err2 != nil {
+		if errors.Is(err2, stdio.EOF) {
 			endReached = true
 			break
+		}
+		if err2 != nil {
+			// a malformed record is not the end of the file
+			return nil, false, fmt.Errorf("read csv record after %d good records of this chunk: %w", linesRead, err2)
 		}
 		csvChunk = append(csvChunk, row)
 		linesRead++
